@@ -89,6 +89,9 @@ type EPConf struct {
 	// certificate are appended to the first certificate's chain (a Certificate message above the record limit).
 	OuterPMTU int `json:"outer_pmtu,omitempty"`
 	ChainPad  int `json:"chain_pad,omitempty"`
+	// OuterWindow (Clone 2, dtlcp): the ReplayWindow of the listener configuration (-1: left at zero), when it
+	// differs from that of the configuration GetConfigForClient returns
+	OuterWindow int `json:"outer_window,omitempty"`
 	// CertVia: how the key pairs in Certs reach the configuration - 0 all static (Config.Certificates), 1 all
 	// through the callbacks (server: GetCertificate / GetKECertificate, client: GetClientCertificate /
 	// GetClientKECertificate), 2 the first static and the second through its callback
@@ -346,6 +349,11 @@ func (e *EPConf) BuildDTLCP(env *Env, name string) *dtlcp.Config {
 		outer.Certificates, outer.SessionCache = nil, nil
 		if e.OuterPMTU != 0 {
 			outer.PMTU = e.OuterPMTU
+		}
+		if e.OuterWindow > 0 {
+			outer.ReplayWindow = e.OuterWindow
+		} else if e.OuterWindow < 0 {
+			outer.ReplayWindow = 0
 		}
 		outer.GetConfigForClient = func(*dtlcp.ClientHelloInfo) (*dtlcp.Config, error) { return inner, nil }
 		c = outer
